@@ -138,6 +138,11 @@ type run struct {
 
 	skipped int
 	applied int
+
+	progFree chan struct{} // closed at the end of the schedule: the remaining calls start by themselves
+	stop     chan struct{} // closed by the scheduler at the end of the schedule (ends the *Loop calls)
+	seenAt   map[int64]int // scheduler only: order in which goroutines were first seen at the write gate
+	seenN    int
 }
 
 func (r *run) doCall(w *worker, k int, call string) {
@@ -178,12 +183,50 @@ func (r *run) doCall(w *worker, k int, call string) {
 		st := r.cut.ConnectionState()
 		w.log.add(t0, Event{"ev": "ce", "g": w.g, "k": k, "call": call, "cls": "ok", "hc": st.HandshakeComplete, "ver": int(st.Version)})
 	case "ConnStateLoop":
-		// keeps handshakeMutex busy for a while (stress schedules)
+		// polls ConnectionState until the schedule ends: keeps handshakeMutex busy (stress schedules)
 		w.log.add(t0, Event{"ev": "cs", "g": w.g, "k": k, "call": call})
-		for i := 0; i < 300; i++ {
+		n := 0
+	pollLoop:
+		for ; n < 2000000; n++ {
+			select {
+			case <-r.stop:
+				break pollLoop
+			default:
+			}
 			_ = r.cut.ConnectionState()
 		}
-		w.log.add(t0, Event{"ev": "ce", "g": w.g, "k": k, "call": call, "cls": "ok"})
+		w.log.add(t0, Event{"ev": "ce", "g": w.g, "k": k, "call": call, "cls": "ok", "n": n})
+	case "WriteLoop":
+		// one payload handed to the connection in 3-byte Writes until the schedule ends or a Write
+		// fails: for the specification it is one Write of the whole payload that succeeded only if
+		// every piece did (every piece goes through Handshake() and takes c.out)
+		const pieces = 60
+		id := writeID(w.g, k)
+		p := payload(id, 3*pieces)
+		w.log.add(t0, Event{"ev": "cs", "g": w.g, "k": k, "call": "Write", "w": id, "len": len(p), "loop": true})
+		total := 0
+		var err error
+		stopped := false
+	writeLoop:
+		for i := 0; i < pieces; i++ {
+			select {
+			case <-r.stop:
+				stopped = true
+				break writeLoop
+			default:
+			}
+			var n int
+			n, err = r.cut.Write(p[3*i : 3*i+3])
+			total += n
+			if err != nil {
+				break
+			}
+		}
+		cls := classify(err)
+		if stopped && err == nil {
+			cls = "stopped"
+		}
+		w.log.add(t0, Event{"ev": "ce", "g": w.g, "k": k, "call": "Write", "cls": cls, "n": total, "w": id})
 	case "VerifyHostname":
 		// takes handshakeMutex like ConnectionState (conn.go VerifyHostname)
 		w.log.add(t0, Event{"ev": "cs", "g": w.g, "k": k, "call": call})
@@ -242,7 +285,10 @@ func (r *run) workerLoop(w *worker, ready *sync.WaitGroup) {
 	ready.Done()
 	defer close(w.done)
 	for i, call := range w.prog {
-		w.idleWait(r.gate.free)
+		if i == 0 || r.s.Mode != "free" {
+			// free (stress) mode: only the first call waits for its start event
+			w.idleWait(r.progFree)
+		}
 		if r.s.Mode == "loose" {
 			// seeded jitter before the call (per worker rng derived from the schedule seed)
 			d := time.Duration((r.s.Seed*31+int64(w.g)*17+int64(i)*7)%5) * 50 * time.Microsecond
@@ -325,6 +371,25 @@ func parseDump(b []byte) map[int64]*gstate {
 	return res
 }
 
+// noteWriters remembers the order in which goroutines arrived at the write gate.
+func (r *run) noteWriters(st map[int64]*gstate) {
+	var ids []int64
+	for id, g := range st {
+		if g.atW {
+			if _, ok := r.seenAt[id]; !ok {
+				ids = append(ids, id)
+			}
+		} else {
+			delete(r.seenAt, id)
+		}
+	}
+	sort.Slice(ids, func(i, j int) bool { return ids[i] < ids[j] })
+	for _, id := range ids {
+		r.seenN++
+		r.seenAt[id] = r.seenN
+	}
+}
+
 // settle waits until every goroutine except the caller is in a waiting state.
 func (r *run) settle() map[int64]*gstate {
 	me := curGoid()
@@ -342,6 +407,7 @@ func (r *run) settle() map[int64]*gstate {
 			}
 		}
 		if !busy {
+			r.noteWriters(st)
 			return st
 		}
 		if time.Now().After(deadline) {
@@ -410,12 +476,16 @@ func (r *run) permitOp(stp *map[int64]*gstate, rd bool, tg int) bool {
 		target = ws
 	}
 	pick := target
-	if !rd && len(at) > 1 {
-		r.schedLog.add(r.t0, Event{"ev": "dblw", "n": len(at)})
-		for _, g := range at {
-			if target == nil || g.id != target.id {
-				pick = g
-				break
+	if !rd {
+		r.noteWriters(st)
+		if len(at) > 1 {
+			// impossible in the B model: release the goroutine that arrived last
+			r.schedLog.add(r.t0, Event{"ev": "dblw", "n": len(at)})
+			pick = at[0]
+			for _, g := range at {
+				if r.seenAt[g.id] > r.seenAt[pick.id] {
+					pick = g
+				}
 			}
 		}
 	}
@@ -434,6 +504,9 @@ func (r *run) permitOp(stp *map[int64]*gstate, rd bool, tg int) bool {
 		}
 	}
 	ok := permit(ch)
+	if !rd {
+		delete(r.seenAt, pick.id)
+	}
 	// a handshake flight: keep permitting the same direction while the goroutine is inside the
 	// handshake and comes back to the same gate
 	for n := 0; ok && pick.inHS && n < 64; n++ {
@@ -582,7 +655,8 @@ func runSchedule(s Schedule, watchdog time.Duration) (events []Event, stuck bool
 		s.Mode = "strict"
 	}
 	certOnce.Do(func() { serverCert = makeCert() })
-	r := &run{s: s, t0: time.Now(), rng: rand.New(rand.NewSource(s.Seed))}
+	r := &run{s: s, t0: time.Now(), rng: rand.New(rand.NewSource(s.Seed)), stop: make(chan struct{}), progFree: make(chan struct{}),
+		seenAt: map[int64]int{}}
 	r.gate, r.pc = newPipe()
 	v := versionOf(s.Ver)
 	ccfg := &tls.Config{InsecureSkipVerify: true, MinVersion: v, MaxVersion: v,
@@ -677,8 +751,31 @@ func runSchedule(s Schedule, watchdog time.Duration) (events []Event, stuck bool
 		}
 	}
 
+	// completion phase (gated modes): the operations that are in flight when the schedule ends are
+	// released one at a time - writes first, then reads (a Read for which no data is there simply
+	// waits for the end) - so that what the schedule set up plays out before the transport is taken
+	// away.  (The scheduler does not look into the buffers: that would synchronise it with the workers.)
+	if s.Mode != "free" {
+		for round := 0; round < 12; round++ {
+			st = r.settle()
+			if anyAt(st, false) != nil {
+				if !r.permitOp(&st, false, 0) {
+					break
+				}
+				continue
+			}
+			if anyAt(st, true) != nil && round < 6 {
+				if !r.permitOp(&st, true, 0) {
+					break
+				}
+				continue
+			}
+			break
+		}
+	}
 	// end of the schedule: the transport goes down in both directions, every deadline expires,
 	// every gate opens; the remaining calls of the programs run freely.
+	close(r.stop)
 	r.settle()
 	r.gate.expire()
 	for _, w := range r.workers {
@@ -687,6 +784,7 @@ func runSchedule(s Schedule, watchdog time.Duration) (events []Event, stuck bool
 	r.gate.netdown()
 	r.schedLog.add(r.t0, Event{"ev": "down"})
 	r.gate.openAll()
+	close(r.progFree)
 	limit := time.After(watchdog)
 	var stuckCalls [][2]int
 	for _, w := range r.workers {
